@@ -172,7 +172,7 @@ func c05(c *Check) {
 				wb := writes[0].Ins.Block()
 				reach := fa.reachFrom(cs.Ins.Block())
 				for _, r := range fa.NonRejectReturns() {
-					if reach[r.Block().Index] && !(wb == r.Block() || wb.Dominates(r.Block())) {
+					if reach[r.Block().Index] && !(wb == r.Block() || c.P.Dominates(wb, r.Block())) {
 						ok = false
 					}
 				}
